@@ -167,30 +167,32 @@ Definition cat_dtype (xs : list (option sens)) : option SensorCache.dtype :=
 
 Inductive sres := RNum (l : list Z) | RCat (c : cdz) | RKeyError | RFail.
 
-(* one part's contribution to a numeric sensor *)
-Definition num_piece (dummy : Z) (p : part) (o : option sens) : list Z :=
-  match o with Some (SNum _ l) => l | _ => repeat dummy (nT p) end.
+(* one part's contribution (n = its number of dumps) to a numeric sensor *)
+Definition num_piece (dummy : Z) (n : nat) (o : option sens) : list Z :=
+  match o with Some (SNum _ l) => l | _ => repeat dummy n end.
 (* one part's contribution to a categorical sensor: its own container, or _extract(dummy) = one event *)
-Definition cat_piece (dummy : Z) (p : part) (o : option sens) : cdz :=
-  match o with Some (SCat _ c) => c | _ => make Z.eqb [dummy] [0; nT p] end.
+Definition cat_piece (dummy : Z) (n : nat) (o : option sens) : cdz :=
+  match o with Some (SCat _ c) => c | _ => make Z.eqb [dummy] [0; n] end.
 
 Definition get_sensor (ps : list part) (name : Z) (allow_repeats : bool) : sres :=
   let xs := map (fun p => find_sens name (p_sens p)) ps in
+  let nxs := combine (map nT ps) xs in
   if forallb is_absent xs then RKeyError
   else if existsb is_cat xs then
     if existsb is_num xs then RFail                     (* concatenate_categorical on an ndarray *)
     else match cat_dtype xs with
          | Some dt =>
-             match zcat (map (fun px => cat_piece (dummy_code dt) (fst px) (snd px)) (combine ps xs)) allow_repeats with
+             match zcat (map (fun nx => cat_piece (dummy_code dt) (fst nx) (snd nx)) nxs) allow_repeats with
              | Some c => RCat c
              | None => RFail
              end
          | None => RFail
          end
   else
-    (* common_dtype: float64 as soon as one part has floats, else the integer type *)
+    (* common_dtype: float64 as soon as one part has floats, else the integer type; the filler of a plain array
+       is an array of the dummy value of that type *)
     let dt := if existsb is_floatnum xs then SensorCache.DFloat else SensorCache.DInt in
-    RNum (concat (map (fun px => num_piece (dummy_code dt) (fst px) (snd px)) (combine ps xs))).
+    RNum (concat (map (fun nx => num_piece (dummy_code dt) (fst nx) (snd nx)) nxs)).
 
 (* cache[name] with the time selection: every part applies its own slice view of the global mask *)
 Fixpoint mask_sel {A} (m : list bool) (l : list A) : list A :=
@@ -235,11 +237,11 @@ Definition spec_sensor (ps : list part) (name : Z) : option (list Z) :=
     let dummy := if existsb is_cat xs
                  then match cat_dtype xs with Some dt => dummy_code dt | None => 0%Z end
                  else dummy_code (if existsb is_floatnum xs then SensorCache.DFloat else SensorCache.DInt) in
-    Some (concat (map (fun px => match snd px with
+    Some (concat (map (fun nx => match snd nx with
                                  | Some (SNum _ l) => l
                                  | Some (SCat _ c) => zexpand c
-                                 | None => repeat dummy (nT (fst px))
-                                 end) (combine ps xs))).
+                                 | None => repeat dummy (fst nx)
+                                 end) (combine (map nT ps) xs))).
 
 (* ---------------------------------------------------------------- wire *)
 Definition to_cd (x : sx) : cdz :=
